@@ -100,8 +100,9 @@ func siblingDiffs(all map[string][]cmpSite) []sibDiff {
 			fam[name] = map[string][]cmpSite{}
 		}
 		for _, s := range sites {
-			// nil tests are err.flow's; the bound of a plain counting loop over len(x) says what `range x` says
-			if !isNilTest(s) && !(s.full && strings.Contains(s.pr.String(), "len(")) {
+			// nil tests are err.flow's; the bound of a plain counting loop (i := 0; i < n; i++, i not written in the body)
+			// says what `range` over the same thing says, whatever n is called
+			if !isNilTest(s) && !s.full {
 				fam[name][pkg] = append(fam[name][pkg], s)
 			}
 		}
